@@ -65,6 +65,7 @@ func NewSaizBox(capacity int) *SaizBox {
 
 // AddSampleInfo adds a sampleinfo info based on parameters provided.
 // If no length field, don't update the sample field (typicall audio cbcs)
+// The sample info size is an 8-bit field, so len(iv) + 2 + 6*len(subsamplePatterns) must not exceed 255.
 func (b *SaizBox) AddSampleInfo(iv []byte, subsamplePatterns []SubSamplePattern) {
 	size := len(iv)
 	if len(subsamplePatterns) > 0 {
